@@ -17,7 +17,9 @@ SPEC = "trace/Trace_Schedule.tla"
 def gen_cases(ctx: Ctx) -> list:
     rng = ctx.rng
     cases = []
-    dq = [dict(E=1, S=1, K=2, ls=0), dict(E=1, S=2, K=3, ls=2), dict(E=2, S=1, K=1, ls=3), dict(E=1, S=1, K=4, ls=1)]
+    dq = [dict(E=1, S=1, K=2, ls=0), dict(E=1, S=2, K=3, ls=2), dict(E=2, S=1, K=1, ls=3), dict(E=1, S=1, K=4, ls=1),
+          # steps per iteration sharing a factor with the interval: an interval counted in environment steps would show
+          dict(E=1, S=2, K=4, ls=1), dict(E=2, S=2, K=6, ls=0)]
     sq = [dict(E=1, S=1, pf=2, auto=True, tn=2, ls=2), dict(E=1, S=1, pf=3, auto=False, tn=1, ls=2),
           dict(E=2, S=1, pf=1, auto=True, tn=4, ls=2)]
     if ctx.thorough:
